@@ -185,6 +185,22 @@ def run(ck: Check, prog: Program) -> None:
     rf = mprog.func(V20 + '.Request.from_json')
     ck.functions.add(rf.qualname)
     c06._field_guards(ck, mprog, rf)
+    # responses built by dispatch itself (document-level rejections) carry the id null: nothing read from the unvalidated JSON
+    from ..flow import Flow as _FlowD
+    for r in roles:
+        f_ = r.dispatch
+        cfg_d = CFG(f_, prog)
+        fl_d = _FlowD(cfg_d)
+        for call in response_ctor_calls(prog, f_):
+            idv = kwarg(call, 'id', 0)
+            n_d = stmt_node_of(cfg_d, call)
+            leafs = [al.expr for al in fl_d.alts(n_d, idv)] if (idv is not None and n_d is not None) else []
+            ok_id = bool(leafs) and all(isinstance(v, ast.Constant) and v.value is None for v in leafs)
+            ck.ob('ID-SHAPE', f'{short(f_.qualname)}: a document-level rejection is answered with id null', ok_id)
+            if not ok_id:
+                ck.finding('ID-SHAPE', f_.qualname, f'document-level response with id={norm(idv)[:40] if idv is not None else "<missing>"}', f_.module.rel, call.lineno,
+                           f'`{norm(call)[:90]}`: a response built before a request was accepted must carry id null; a value taken from the unvalidated '
+                           f'document can be a boolean, an array or an object, which is not a well-formed response id')
     # ---- ERROR-SHAPE: an error object is built with exactly the integer code and string message it was given -----------
     from .sentinel import sent_truth
     from .wire import ctor_precedence_problems
